@@ -919,6 +919,25 @@ theorem seen_domain_complete (rank : TxId → Nat) (E : HEnv) (x : HWS) (evs : L
     (hV : ∀ y ∈ worldsS E x evs, ∀ v, y.2 = .vol v → SeenOK y.1 v.mempool) :
     ∀ y ∈ worldsS E x evs, HOKS rank E y.1 y.2 := hokf_embeds evs x H hD hV
 
+/-- … in general (volatile events included): over the ghost set `ghost0` = what the follower remembers at the start and
+    what the volatile events of the history install, the start world satisfies the seen-set invariant and EVERY history
+    inside the old domain `HOKf` is inside `HOKS` -/
+theorem seen_domain_complete_all (rank : TxId → Nat) (E : HEnv) (w : HW) (evs : List HEv) (H : HInvC rank E w)
+    (hD : ∀ y ∈ worldsH E w evs, HOKf rank E y.1 y.2) :
+    SeenSt (ghost0 w evs) ∧ ∀ y ∈ worldsS E (ghost0 w evs) evs, HOKS rank E y.1 y.2 := hokf_embeds_all evs w H hD
+
+/-- `credit_refines` (statement unchanged) AS A COROLLARY of `pending_refines_seen` -/
+theorem credit_refines_of_seen (rank : TxId → Nat) (E : HEnv) (w : HW) (evs : List HEv) (H : HInvC rank E w)
+    (hD : ∀ x ∈ worldsH E w evs, HOKf rank E x.1 x.2) :
+    HInvC rank E (runH E w evs) ∧
+    (∀ id j amt, (∃ cr, AMap.get (runH E w evs).s.pendCred (id, j) = some cr ∧ cr.amt = amt) ↔
+      (id, j, amt) ∈ pendingCredits E.env (runH E w evs).sp.pend) := by
+  have e := hokf_embeds_all evs w H hD
+  have h := pending_refines_seen rank E (ghost0 w evs) evs H e.1 e.2
+  have h1 : (runS E (ghost0 w evs) evs).w = runH E w evs := h.1
+  rw [← h1]
+  exact ⟨h.2.1, h.2.2.2.2.2.2⟩
+
 /-- non-vacuity: the round-6 history from the fresh wallet, empty ghost set: invariant at the start, inside `HOKS`;
     after it the seen-set is {T1, T2} (both pending again), the ghost set {C2} (coinbase of the disconnected B2) -/
 example : HInvC exRankH exE exX0.w ∧ SeenSt exX0 ∧ (∀ y ∈ worldsS exE exX0 exEvs6, HOKS exRankH exE y.1 y.2) :=
